@@ -32,6 +32,9 @@ PHOTON_TARGETS = [
      "vals": {0: "zz", 1: "aa", 2: "bb", 3: "cc"}, "forms": ["list"], "text": True},
     {"key": "detector.geometry.pixel_vert_size", "src": "det:geometry.pixel_vert_size", "arity": 1,
      "vals": {0: 10.0, 1: 21.0, 2: 22.0, 3: 23.0}, "forms": ["list"]},
+    # an entry INSIDE a dictionary-valued argument
+    {"key": "pipeline.photon_collection.stamp.arguments.opt.level", "src": "arg:opt.level", "arity": 1,
+     "vals": {0: 40, 1: 41, 2: 42, 3: 43}, "forms": ["list"], "nested": True},
 ]
 SIGNAL_TARGETS = [
     {"key": "pipeline.charge_measurement.stamp2.arguments.a", "src": "arg:a", "arity": 1,
@@ -44,6 +47,8 @@ SIGNAL_TARGETS = [
      "vals": {0: -1.5, 1: -2.5, 2: 1e3, 3: 1e-3}, "forms": ["list", "array"]},
     {"key": "pipeline.charge_measurement.stamp2.arguments.k", "src": "arg:k", "arity": 1,
      "vals": {0: "k0", 1: "k1", 2: "k2", 3: "k3"}, "forms": ["list"], "text": True},
+    {"key": "pipeline.charge_measurement.stamp2.arguments.cfg.gain", "src": "arg:cfg.gain", "arity": 1,
+     "vals": {0: 60.0, 1: 61.0, 2: 62.0, 3: 63.0}, "forms": ["list", "array"], "nested": True},
 ]
 
 
@@ -63,6 +68,11 @@ def assign_targets(ocfg: dict, variant: int = 0, force: list | None = None) -> l
         # different length make the merge of the per-run trees fail (both coordinates use the
         # anonymous dimension 'dim_0'): an explicit error, not a wrong result - not generated.
         if t in out or (custom and t.get("text")):
+            return False
+        # Named deviation DEV_NestedKeyGet: sequential mode reads the configured value of every parameter with
+        # Processor.get, which cannot read an entry of a dictionary-valued argument (AttributeError: an explicit
+        # refusal, not a wrong result) - such keys are swept in product and custom mode only.
+        if t.get("nested") and ocfg["mode"] == "sequential":
             return False
         return not (t["arity"] > 1 and any(o["arity"] > 1 for o in out))
 
@@ -141,6 +151,19 @@ def coord_names(ocfg: dict, targets: list) -> list:
 JOB = [0]
 
 
+def _arg(user: dict, dotted: str):
+    """Value of a (possibly nested) keyword argument: 'a' or 'opt.level'."""
+    cur = user
+    for part in dotted.split("."):
+        if not isinstance(cur, dict) and not hasattr(cur, "__getitem__"):
+            return None
+        try:
+            cur = cur[part]
+        except Exception:
+            return None
+    return cur
+
+
 def _get(detector, dotted):
     obj = detector
     for part in dotted.split("."):
@@ -155,7 +178,7 @@ def stamp(detector, _p=None, acc=None, **user):
     level = 0
     for j, tgt in p["decode"]:
         src = tgt["src"]
-        val = user.get(src[4:]) if src.startswith("arg:") else _get(detector, src[4:])
+        val = _arg(user, src[4:]) if src.startswith("arg:") else _get(detector, src[4:])
         level += token_of(tgt, val) * 8 ** j
     cnt = detector._memory.get("cnt", -1)
     nacc = len(acc) if acc is not None else -1
@@ -178,7 +201,7 @@ def stamp2(detector, _p=None, **user):
     eff = [0] * np_
     level = 0
     for j, tgt in p["decode"]:
-        tok = token_of(tgt, user.get(tgt["src"][4:]))
+        tok = token_of(tgt, _arg(user, tgt["src"][4:]))
         eff[j] = tok
         level += tok * 8 ** j
     ph = px.level_of(detector.photon._array)
@@ -205,9 +228,9 @@ def build(ocfg: dict, variant: int = 0, delay: float = 0.0, exc: str = "ValueErr
     dec_ph = [[j, targets[j]] for j, p in enumerate(ocfg["params"]) if p["sink"] == "photon"]
     dec_sg = [[j, targets[j]] for j, p in enumerate(ocfg["params"]) if p["sink"] == "signal"]
     msg = "obs-fault " + json.dumps(ocfg.get("fault", []))
-    a1 = {"a": 10, "v": [9, 9], "s": "zz", "acc": [1, 2, 3],
+    a1 = {"a": 10, "v": [9, 9], "s": "zz", "acc": [1, 2, 3], "opt": {"level": 40, "other": [1, 2]},
           "_p": {"decode": dec_ph, "delay": delay, "img": False, "job": JOB[0]}}
-    a2 = {"a": 7.0, "w": [8, 8, 8], "g": 70, "h": -1.5, "k": "k0",
+    a2 = {"a": 7.0, "w": [8, 8, 8], "g": 70, "h": -1.5, "k": "k0", "cfg": {"gain": 60.0, "name": "x"},
           "_p": {"decode": dec_sg, "np": np_, "photon_js": [j for j, _ in dec_ph],
                  "fault": list(ocfg.get("fault") or []), "exc": exc, "msg": msg, "job": JOB[0]}}
     groups = {"photon_collection": [ModelFunction(func="harness.obs.stamp", name="stamp", arguments=a1)],
@@ -317,14 +340,14 @@ def project_entries(dt, ocfg, targets) -> list:
 
 def record_observation(ocfg: dict, variant: int = 0, scheduler: str | None = None, workers: int | None = None,
                        delay: float = 0.0, exc: str = "ValueError", per_entry: bool = False,
-                       force: list | None = None, repeat: int = 1) -> dict:
+                       force: list | None = None, repeat: int = 1, reconf: list | None = None) -> dict:
     """Run the observation; return {ocfg, observed, events, meta}."""
     import dask
     import pyxel
     JOB[0] += 1        # runs that threads of an earlier (failed) observation still execute are not ours
     pm.SINK.reset()
     meta = {"variant": variant, "scheduler": scheduler, "workers": workers, "exc": exc, "mode": ocfg["mode"],
-            "dask": bool(ocfg["dask"]), "force": force, "delay": delay}
+            "dask": bool(ocfg["dask"]), "force": force, "delay": delay, "repeat": repeat, "reconf": reconf}
     observed = scheduler != "processes"
     tmpdir = None
     try:
@@ -338,6 +361,15 @@ def record_observation(ocfg: dict, variant: int = 0, scheduler: str | None = Non
         if rep:
             # the same Observation, detector and pipeline objects are run once more (a session)
             events.append({"e": "rerun"})
+            # the caller edits, on his own objects, the values some parameters are configured with
+            for j, tok in (reconf or []):
+                try:
+                    from pyxel.pipelines import Processor
+                    Processor(detector=det, pipeline=pipe).set(key=targets[j]["key"], value=copy.deepcopy(targets[j]["vals"][tok]))
+                except Exception:
+                    import traceback
+                    events.append({"e": "harness-error", "why": traceback.format_exc()[-600:]})
+                events.append({"e": "reconf", "j": j + 1, "tok": tok})
             JOB[0] += 1
             for model, key in ((pipe.photon_collection.models[0], "stamp"), (pipe.charge_measurement.models[0], "stamp2")):
                 model.arguments["_p"]["job"] = JOB[0]
